@@ -75,6 +75,14 @@ def gen(rng, thorough):
                        ("advance", 76431), ("advance", 76431), ("release",), ("answer", "fifo"), ("advance", 100)]
         h["id"] = "c02-stalled-injector-%d" % k
         hs.append(h)
+    # the clock is set back (a correction of the system clock) while an injector is stalled, and the daemon restarted: the message
+    # file's access time then lies in the FUTURE of the daemon's clock - it is young, not ancient, and must not be collected
+    for k in (range(4, 13) if thorough else (5, 8, 11)):
+        idx += 1
+        h = base(idx, 2, rng)
+        h["script"] = [("inject_hold", 0, k, 0), ("inject", 1), ("answer", "fifo"), ("stop",), ("advance", -30), ("start",), ("advance", 5), ("release",), ("answer", "fifo"), ("advance", 100)]
+        h["id"] = "c02-clock-set-back-%d" % k
+        hs.append(h)
     # injectors that abort (envelope cut short) and whose clean-up meets a failing call (each of their calls in turn): what they
     # leave behind is still a documented state, and is collected later
     for k in range(6, 16):
